@@ -101,6 +101,9 @@ func (t *Tty) FeedChunks(chunks [][]byte) {
 	}
 }
 
+// Discard drops the input not yet read (a flush of the input queue).
+func (t *Tty) Discard() { t.pending, t.bounds = nil, nil }
+
 // Pending returns the number of bytes not yet read.
 func (t *Tty) Pending() int { return len(t.pending) }
 
